@@ -24,6 +24,7 @@ ASSUMPTIONS = [
     "presence is decided by whole-word search; names are globally unique and pairwise non-substring",
     "a hidden default sub-command whose synopsis stands in for its parent's usage is not judged on the parent's page",
     "help texts only use the documented placeholders {script_name} and {command_name}",
+    "help texts of applications and commands are str.format templates (placeholders {script_name} and {command_name}); literal braces are written doubled",
 ]
 
 L, G = markup.LT, markup.GT
@@ -98,6 +99,8 @@ def check_page(ctx, case):
             cfg.set_name("my-app").set_version(case.get("version", "1.0"))
             if case.get("display"):
                 cfg.set_display_name(case["display"])
+            if case.get("app_help"):
+                cfg.set_help(case["app_help"])
 
         app = gen_tree.build_app(tree, "default", rec.handler_for, configure=configure)
     except Exception as e:
@@ -227,6 +230,8 @@ def page_case(draw):
         # the first line of the application page: display name and version of any length
         case["display"] = draw(st.sampled_from([None, "Tool", "The Acme Deployment And Provisioning Console For Everything"]))
         case["version"] = draw(st.sampled_from([None, "1.0", "2.14.0-rc.3+build.20240117.deadbeef.cafebabe.0123456789"]))
+        case["app_help"] = draw(st.sampled_from([None, "Short help.", "Help of {script_name}: " + "many words " * 30
+                                                 + "\n\nSecond paragraph with {{doubled braces}} and 100% signs."]))
     return case
 
 
